@@ -459,14 +459,19 @@ def value_inputs(rnd, n_each):
     """-> list of (builtin name, description, factory) ; factory(log) -> (args, kwargs), fresh each call."""
     scal = [0, 1, -5, 2 ** 70, True, False, 3.5, -0.0, float('nan'), float('inf'), '12', ' 7 ', 'abc', '', b'11', None,
             Num(4), Num(-2.5), [1], (), {}, BadLen(), 1 + 2j, '0x1f', '1_0', 'z']
+    seqsrc = ['[3, 1, 2]', '()', "(0, '', None)", "'hello'", "{'b': 1, 'a': 2}", '{3, 1}', 'iter([1, 0, 2])',
+              '(x for x in [5, 6, 7])', 'Log([4, 0, 6, 1])', '[Num(3), Num(1)]', 'range(4)', '7', 'None', '[[2], [1, 1]]',
+              "[1, 'a']", 'Log([])', 'frozenset([2])', "b'ab'", '[True, False]']
     seqs = [lambda L: [3, 1, 2], lambda L: (), lambda L: (0, '', None), lambda L: 'hello', lambda L: {'b': 1, 'a': 2},
             lambda L: {3, 1}, lambda L: iter([1, 0, 2]), lambda L: _gen([5, 6, 7]), lambda L: Log([4, 0, 6, 1], L),
             lambda L: [Num(3), Num(1)], lambda L: range(4), lambda L: 7, lambda L: None, lambda L: [[2], [1, 1]],
             lambda L: [1, 'a'], lambda L: Log([], L), lambda L: frozenset([2]), lambda L: b'ab', lambda L: [True, False]]
     fns = [None, bool, str, lambda x: x, lambda *a: a, abs, 5, lambda x: 1 / x]
+    fnsrc = ['None', 'bool', 'str', 'lambda x: x', 'lambda *a: a', 'abs', '5', 'lambda x: 1 / x']
     out = []
 
     def add(b, desc, fac):
+        desc = re.sub(r'seq(\d+)', lambda m: seqsrc[int(m.group(1))], desc)
         out.append((b, desc, fac))
 
     for v in scal:
@@ -503,11 +508,11 @@ def value_inputs(rnd, n_each):
                         kw['key'] = key
                     if rev != 'absent':
                         kw['reverse'] = rev
-                    add('sorted', 'sorted(seq%d, **%r)' % (i, sorted(kw)), lambda L, s=s, kw=kw: ((s(L),), dict(kw)))
-        for f in fns:
+                    add('sorted', 'sorted(seq%d, **%s)' % (i, _kwdesc(kw)), lambda L, s=s, kw=kw: ((s(L),), dict(kw)))
+        for f, fs in zip(fns, fnsrc):
             if rnd.random() < 0.6:
-                add('filter', 'filter(fn, seq%d)' % i, lambda L, s=s, f=f: ((f, s(L)), {}))
-                add('map', 'map(fn, seq%d)' % i, lambda L, s=s, f=f: ((f, s(L)), {}))
+                add('filter', 'filter(%s, seq%d)' % (fs, i), lambda L, s=s, f=f: ((f, s(L)), {}))
+                add('map', 'map(%s, seq%d)' % (fs, i), lambda L, s=s, f=f: ((f, s(L)), {}))
         for j, s2 in enumerate(seqs):
             if rnd.random() < 0.25:
                 add('zip', 'zip(seq%d, seq%d)' % (i, j), lambda L, s=s, s2=s2: ((s(L), s2(L)), {}))
@@ -515,7 +520,7 @@ def value_inputs(rnd, n_each):
                     if rnd.random() < 0.5:
                         add('zip', 'zip(seq%d, seq%d, strict=%r)' % (i, j, strict),
                             lambda L, s=s, s2=s2, strict=strict: ((s(L), s2(L)), {'strict': strict}))
-                add('map', 'map(tuple-fn, seq%d, seq%d)' % (i, j), lambda L, s=s, s2=s2: ((lambda *a: a, s(L), s2(L)), {}))
+                add('map', 'map(lambda *a: a, seq%d, seq%d)' % (i, j), lambda L, s=s, s2=s2: ((lambda *a: a, s(L), s2(L)), {}))
                 add('map', 'map(abs, seq%d, seq%d)' % (i, j), lambda L, s=s, s2=s2: ((abs, s(L), s2(L)), {}))
         add('zip', 'zip(seq%d)' % i, lambda L, s=s: ((s(L),), {}))
         add('zip', 'zip(seq%d, strict=True)' % i, lambda L, s=s: ((s(L),), {'strict': True}))
@@ -542,6 +547,11 @@ def value_inputs(rnd, n_each):
         kw = {k: rnd.choice(kwpool[k]) for k in ks}
         add('print', 'print(*%r, **%r)' % (objs, kw), lambda L, objs=objs, kw=kw: (objs, dict(kw)))
     return out
+
+
+def _kwdesc(kw):
+    return '{' + ', '.join('%r: %s' % (k, getattr(v, '__name__', None) if callable(v) and getattr(v, '__name__', '') != '<lambda>'
+                                        else ('lambda x: -x' if callable(v) else repr(v))) for k, v in kw.items()) + '}'
 
 
 def canon(v):
@@ -645,6 +655,12 @@ def ctx_programs(rnd, n):
                 ''.join('        ' + l + '\n' for l in body.rstrip('\n').split('\n')) + '        return r\n'
             progs.append((cname, src, [0, 2], {'depth': len(wr), 'use': 'super', 'referenced': True,
                                                'wrappers': [w[0] for w in wr], 'method': True}))
+    progs.append(('SR', "class A_SR(object):\n    def __init__(self, tag, other=None):\n        self.tag = tag\n        self.other = other\n"
+                        "    def m(self, n):\n        return self.tag + n\n"
+                        "class SR(A_SR):\n    def m(self, n):\n        r = 0\n        if n > 0:\n            r = self.other.m(n - 1)\n"
+                        "        return r * 10 + super().m(n)\n"
+                        "def sr(n):\n    return SR(1, SR(2, SR(3))).m(n)\n", [0, 1, 2],
+                  {'depth': 0, 'use': 'super_other_instance', 'referenced': True, 'wrappers': [], 'fn': 'sr'}))
     return progs
 
 
@@ -671,6 +687,14 @@ def run_ctx(progs, tmpdir):
         for n in inputs:
             def call(fn_of):
                 try:
+                    if meta.get('fn'):
+                        cls = getattr(mod, name)
+                        saved = cls.m
+                        try:
+                            cls.m = fn_of(cls.m)
+                            return ('value', repr(getattr(mod, meta['fn'])(n)))
+                        finally:
+                            cls.m = saved
                     if meta.get('method'):
                         cls = getattr(mod, name)
                         return ('value', repr(fn_of(cls.m)(cls(), n)))
@@ -753,22 +777,26 @@ def _check(run, rnd, thorough, tmp):
               for i, (nm, fr, inner, got, _) in enumerate(fcases)]
     run.count(len(bcases) + len(dcases) + len(fcases))
     nonconf = None
-    if tie_msg is None:
-        hdr = ['From Coq Require Import List String Bool.', 'Import ListNotations.',
-               'Require Import MV.Builtins.Binding MV.Builtins.Overload MV.Builtins.DocSigs MV.Builtins.BuiltinsCheck '
-               'MV.Builtins.Frames MV.Generated.C14_gen.', 'Local Open Scope string_scope.']
+    if True:
+        hdr0 = ['From Coq Require Import List String Bool.', 'Import ListNotations.',
+                'Require Import MV.Builtins.Binding MV.Builtins.Overload MV.Builtins.DocSigs MV.Builtins.BuiltinsCheck '
+                'MV.Builtins.Frames.', 'Local Open Scope string_scope.']
+        hdr = hdr0 + ['Require Import MV.Generated.C14_gen.']
         jobs = []
-        for s in range(0, len(oterms), 400):
-            jobs.append(('ov%d' % (s // 400), hdr + ['Definition cases : list case := [', ';\n'.join(oterms[s:s + 400]), '].',
-                                                     'Eval vm_compute in failing table_gen cases.'], 'overload', ocases))
-        jobs.append(('bind', hdr + ['Definition cases : list bcase := [', ';\n'.join(bterms), '].',
-                                    'Eval vm_compute in failing_b cases.'], 'bind', bcases))
-        jobs.append(('doc', hdr + ['Definition cases : list dcase := [', ';\n'.join(dterms), '].',
-                                   'Eval vm_compute in failing_d cases.'], 'docsig', dcases))
-        jobs.append(('frames', hdr + ['Definition cases : list fcase := [', ';\n'.join(fterms), '].',
-                                      'Eval vm_compute in failing_f cases.'], 'frames', fcases))
-        jobs.append(('nonconf', hdr + ['Eval vm_compute in map (fun p => (fst p, List.length (snd p))) (nonconforming table_gen).',
-                                       'Eval vm_compute in nonconforming table_gen.'], 'nonconf', None))
+        if tie_msg is None:
+            for s in range(0, len(oterms), 400):
+                jobs.append(('ov%d' % (s // 400), hdr + ['Definition cases : list case := [', ';\n'.join(oterms[s:s + 400]), '].',
+                                                         'Eval vm_compute in failing table_gen cases.'], 'overload', ocases[s:s + 400]))
+            jobs.append(('nonconf', hdr + ['Eval vm_compute in map (fun p => (fst p, List.length (snd p))) (nonconforming table_gen).',
+                                           'Eval vm_compute in nonconforming table_gen.'], 'nonconf', None))
+        else:
+            vlib.coq_make(['Builtins/BuiltinsCheck.vo', 'Builtins/Frames.vo'])
+        jobs.append(('bind', hdr0 + ['Definition cases : list bcase := [', ';\n'.join(bterms), '].',
+                                     'Eval vm_compute in failing_b cases.'], 'bind', bcases))
+        jobs.append(('doc', hdr0 + ['Definition cases : list dcase := [', ';\n'.join(dterms), '].',
+                                    'Eval vm_compute in failing_d cases.'], 'docsig', dcases))
+        jobs.append(('frames', hdr0 + ['Definition cases : list fcase := [', ';\n'.join(fterms), '].',
+                                       'Eval vm_compute in failing_f cases.'], 'frames', fcases))
         from concurrent.futures import ThreadPoolExecutor
         with ThreadPoolExecutor(max_workers=6) as ex:
             outs = list(ex.map(lambda j: vlib.coq_eval(PID, j[0], '\n'.join(j[1]), timeout=300), jobs))
@@ -784,12 +812,12 @@ def _check(run, rnd, thorough, tmp):
             if bad is None:
                 corr_bad.append('model evaluation failed (%s): %s' % (name, out[-600:]))
                 continue
-            validated += len(cs) if kind != 'overload' else min(400, len(cs))
+            validated += len(cs)
             for i in bad[:5]:
-                c = cs[i]
+                c = ocases[i] if kind == 'overload' else cs[i]
                 if kind == 'overload':
                     corr_bad.append('overload model disagrees with the implementation on %s(*%r, **%r) registries=%r: implementation did %s'
-                                    % (c[0], c[1], dict(c[2]), c[3], oterms[i].rsplit(', ', 1)[-1] if False else oterms[i][oterms[i].index('R'):]))
+                                    % (c[0], c[1], dict(c[2]), c[3], observe_overload(pb, c[0], c[1], c[2], c[3])))
                 elif kind == 'bind':
                     corr_bad.append('Binding.bind disagrees with CPython on %s called with %r %r: CPython gives %s' % (
                         c[4].split('\n')[0], c[1], c[2], c[3]))
@@ -824,13 +852,13 @@ def _check(run, rnd, thorough, tmp):
                 continue
             # both raise the same type with different partial output is still a difference; keep strict
             args, kw = fac([])
-            key = (b, how.split('(')[0], tuple(sorted(kw)), want[0], got[0], got[1] if got[0] == 'raise' else '')
-            if key in seen_fail:
-                continue
-            seen_fail.add(key)
             classify = None
             if b == 'enumerate' and 'iterable' in kw and got[0] == 'raise' and got[1] == 'TypeError' and want[0] != 'raise':
                 classify = KF_ENUM
+            key = (b, how.split('(')[0], classify, want[0] == 'raise', got[0], got[1] if got[0] == 'raise' else '')
+            if key in seen_fail:
+                continue
+            seen_fail.add(key)
             failures.append(('%s differs from the builtin on %s' % (how, desc),
                              {'call': desc, 'via': how, 'builtin_observation': repr(want), 'overload_observation': repr(got),
                               'replay': 'PYTHONPATH=/repo /venv/bin/python -c "from malt.operators import py_builtins as p; '
@@ -872,24 +900,28 @@ def _check(run, rnd, thorough, tmp):
     for title, replay, classify in failures:
         if run.violation(title, replay, classify=classify):
             unknown += 1
-    found_any = bool(failures)
     # builtins the theorem does not cover must each be explained by a failing input found above
     if nonconf:
         for b, nshapes in nonconf:
             explained = any(t.startswith('py_builtins.overload_of(%s)' % b) for t, _, _ in failures)
             if not explained:
+                unknown += 1
                 run.violation('forwarding theorem does not apply to %s (%d refuting call shapes in the model) but the value oracle '
                               'found no failing input' % (b, nshapes),
                               {'builtin': b, 'broken_theorem': 'overload_forwards_same_call (conforms = false)',
                                'model_shapes': nshapes}, found_input=False)
-    if not found_any:
+    searched = '%d value cases, %d context programs: no failing input that is not a listed known finding' % (len(inputs), len(progs))
+    if unknown == 0:
         if tie_msg is not None:
             run.violation('translator no longer recognises the source: ' + tie_msg,
-                          {'broken_tie': tie_msg, 'searched': '%d value cases, %d context programs: no failing input' % (len(inputs), len(progs))},
-                          found_input=False)
+                          {'broken_tie': tie_msg, 'broken_correspondence': corr_bad[:8], 'searched': searched}, found_input=False)
         elif corr_bad:
-            run.violation('correspondence model/implementation broken', {'broken_correspondence': corr_bad[:8],
-                          'searched': '%d value cases, %d context programs: no failing input' % (len(inputs), len(progs))},
+            run.violation('correspondence model/implementation broken',
+                          {'broken_correspondence': corr_bad[:8], 'searched': searched}, found_input=False)
+        elif any(not o.discharged() for o in run.obligations):
+            broken = [o for o in run.obligations if not o.discharged()]
+            run.violation('proof obligation(s) no longer check: ' + ', '.join(o.name for o in broken),
+                          {'broken_obligations': [dict(o.to_json(), log=o.log[-1500:]) for o in broken], 'searched': searched},
                           found_input=False)
     elif corr_bad:
         run.note('correspondence also broken: ' + '; '.join(corr_bad[:3]))
